@@ -8,7 +8,7 @@ export PYTHONHASHSEED=0
 mkdir -p .work evidence replays ocaml/_gen
 /venv/bin/python harness/sync_tables.py || true
 cd coq
-coq_makefile -f _CoqProject -o Makefile
+/venv/bin/python -c "import sys; sys.path.insert(0, \"../harness\"); import core; core.ensure_makefile()"
 timeout 3000 make -k -j16 > ../.work/setup-make.log 2>&1 || { tail -30 ../.work/setup-make.log; echo "setup: some Coq files failed to build (see .work/setup-make.log)"; }
 cd ..
 /venv/bin/python - <<'PY'
